@@ -20,8 +20,11 @@
      serialdeps [test]                     -> ids create_test_serialisation records for the test
      buildline [op]                        -> the build line NinjaBuildElement.write assembles for a B op
      quote     [name]                      -> ninja_quote(name, is_build_line=True)
+     runname   [subproject; name]          -> build_run_target_name
+     relpath   [target; start]             -> os.path.relpath of two normalised relative paths ("." for empty)
+     ppsrc     [T|F flat; subdir; name; o] -> where a user of compiler.preprocess() output o reads it 1 where it is produced
 *)
-From MV Require Import Base.Strs Graph.Manifest Graph.Check Graph.Mech Graph.Ending Graph.Quote.
+From MV Require Import Base.Strs Graph.Manifest Graph.Check Graph.Mech Graph.Ending Graph.Quote Graph.Glue.
 Open Scope N_scope.
 
 Definition S1 : str := [1].
@@ -185,6 +188,19 @@ Definition run (fn : str) (args : list str) : str :=
     | _ => s2l "?" end
   else if str_eqb fn (s2l "quote") then
     match args with [n] => ninja_quote_build n | _ => s2l "?" end
+  else if str_eqb fn (s2l "runname") then
+    match args with [sp; n] => run_target_name (mkRT sp n) | _ => s2l "?" end
+  else if str_eqb fn (s2l "relpath") then
+    match args with
+    | [t; st] => let comps x := filter nonempty (split_on 47 x []) in
+                 match relpath (comps t) (comps st) with [] => [46] | r => join [47] r end
+    | _ => s2l "?" end
+  else if str_eqb fn (s2l "ppsrc") then
+    match args with
+    | [fl; sd; n; o] => let flat := str_eqb fl (s2l "T") in
+                        let sub := filter nonempty (split_on 47 sd []) in
+                        join S1 [join [47] (pp_consumed true flat sub n o); join [47] (pp_produced flat sub n o)]
+    | _ => s2l "?" end
   else if str_eqb fn (s2l "reserved") then join S2 backend_root_outputs
   else if str_eqb fn (s2l "testlike") then join S2 (testlike_targets true (map parse_test args))
   else if str_eqb fn (s2l "testlike_asis") then join S2 (testlike_targets false (map parse_test args))
